@@ -2,7 +2,7 @@
 # Theorems: coq/Properties/C07.v. Correspondence: real actors vs Actor.actor_step projected on errors, acknowledgements and
 # starts; system runs with failing subsets (gated timing of the failure relative to siblings), oracle = non-zero exit naming a
 # failing target, no start line of any transitive dependent.
-from slices import actor, engine, watchrun
+from slices import actor, engine, root, watchrun
 
 
 def keep(o):
@@ -18,7 +18,8 @@ def watch_failures(ck):
 def run(ck):
     engine.check_engine(ck, 'C07', actor.proj(keep_out=keep, keys=('starts', 'exited')),
                         'execution errors + Ok messages sent + script starts + actor exit', fail_p=0.75, gated_p=0.7,
-                        n_sys_quick=18, extra=watch_failures)
+                        n_sys_quick=18, extra=watch_failures, n_root_quick=150,
+                        root_projection=root.status_only, root_what='whether and with which status run returns')
 
 
 def replay(ck, path):
